@@ -58,36 +58,37 @@ func (p *slowPublisher) Publish(_ string, data []byte, _ ...centrifuge.PublishOp
 
 // NodeSpec describes one scripted node of a scenario.
 type NodeSpec struct {
-	Kind              string `json:"kind"`               // honest | laggard | forker | forbidden | badcheckpoint
-	Lag               int    `json:"lag,omitempty"`      // laggard: blocks behind the honest tip
-	ForkAt            int    `json:"fork_at,omitempty"`  // forker: height of the fork point on the honest chain
-	ForkLen           int    `json:"fork_len,omitempty"` // forker: length of its own (lighter) branch
-	Cap               int    `json:"cap,omitempty"`      // reply cap (0 = 2000)
-	DisconnectAtMsg   int    `json:"disconnect_at_msg,omitempty"`
-	CloseAfterVersion bool   `json:"close_after_version,omitempty"` // the first connection is lost after the node's version message, before its verack
-	LoseFirstN        int    `json:"lose_first_n,omitempty"`        // the scripted loss (disconnect_at_msg / close_after_version) hits the first n connections, not only the first
-	VersionTwice      bool   `json:"version_twice,omitempty"`       // on its first connection(s) the node sends its version message twice and no verack
-	UnknownFirst      bool   `json:"unknown_first,omitempty"`       // right after the handshake the node sends a message with a command unknown to the service
-	PushOnHandshake   bool   `json:"push_on_handshake,omitempty"`   // unsolicited pushes go out right after the handshake, not after the first getheaders answer
-	NotFullNode       bool   `json:"not_full_node,omitempty"`       // the node does not advertise NODE_NETWORK (it is no candidate to sync from)
-	RestartOnDrop     bool   `json:"restart_on_drop,omitempty"`     // the scripted loss of the first connection takes every other open connection of the node with it (the node restarts)
-	ProtoVer          uint32 `json:"proto_ver,omitempty"`           // protocol version the node reports (0 = 70013); below 70012 there is no sendheaders: new blocks are announced by inv
-	IgnoreStop        bool   `json:"ignore_stop,omitempty"`         // answers do not end at the stop hash (all that remain, or the cap)
-	SilentFirst       bool   `json:"silent_first,omitempty"`        // the first connection never answers getheaders, later ones do
-	OffendOnce        bool   `json:"offend_once,omitempty"`         // forbidden: after it has delivered the forbidden header once the node follows the honest chain
-	InvBatch          int    `json:"inv_batch,omitempty"`           // inv announcements of this node list its last n blocks, oldest first (the service may know the earlier ones)
-	VersionLag        int    `json:"version_lag,omitempty"`         // the node's version message reports a height this many blocks below its chain: it found blocks while it was being synced from
-	DropAfterHeight   int    `json:"drop_after_height,omitempty"`   // the node closes the connection right after the getheaders answer that contains this height
-	Silent            bool   `json:"silent,omitempty"`              // never answers getheaders (stall)
-	Inbound           bool   `json:"inbound,omitempty"`             // node dials the service instead of being dialled
-	ForbiddenAt       int    `json:"forbidden_at,omitempty"`        // forbidden: height at which its chain carries the forbidden header
-	BadAt             int    `json:"bad_at,omitempty"`              // badcheckpoint: checkpoint height at which its chain differs
-	MaxAccepts        int    `json:"max_accepts,omitempty"`
-	MaxLive           int    `json:"max_live,omitempty"`         // at most n simultaneous connections (1 = "a single connection")
-	NoDescendants     bool   `json:"no_descendants,omitempty"`   // forbidden: the forbidden header is the last of the node's chain
-	ChildFirst        bool   `json:"child_first,omitempty"`      // forbidden (with orphan_forbidden): the node first pushes the forbidden header's child alone, then [forbidden, child]
-	ForkBelow         int    `json:"fork_below,omitempty"`       // badcheckpoint: the contradicting branch forks this many blocks BELOW the checkpoint and is pushed unsolicited, one header per message
-	OrphanForbidden   bool   `json:"orphan_forbidden,omitempty"` // forbidden: the node follows the honest chain and pushes, unsolicited, a forbidden header whose parent the service does not have
+	Kind                 string `json:"kind"`               // honest | laggard | forker | forbidden | badcheckpoint
+	Lag                  int    `json:"lag,omitempty"`      // laggard: blocks behind the honest tip
+	ForkAt               int    `json:"fork_at,omitempty"`  // forker: height of the fork point on the honest chain
+	ForkLen              int    `json:"fork_len,omitempty"` // forker: length of its own (lighter) branch
+	Cap                  int    `json:"cap,omitempty"`      // reply cap (0 = 2000)
+	DisconnectAtMsg      int    `json:"disconnect_at_msg,omitempty"`
+	CloseAfterVersion    bool   `json:"close_after_version,omitempty"`     // the first connection is lost after the node's version message, before its verack
+	LoseFirstN           int    `json:"lose_first_n,omitempty"`            // the scripted loss (disconnect_at_msg / close_after_version) hits the first n connections, not only the first
+	VersionTwice         bool   `json:"version_twice,omitempty"`           // on its first connection(s) the node sends its version message twice and no verack
+	UnknownFirst         bool   `json:"unknown_first,omitempty"`           // right after the handshake the node sends a message with a command unknown to the service
+	PushOnHandshake      bool   `json:"push_on_handshake,omitempty"`       // unsolicited pushes go out right after the handshake, not after the first getheaders answer
+	NotFullNode          bool   `json:"not_full_node,omitempty"`           // the node does not advertise NODE_NETWORK (it is no candidate to sync from)
+	RestartOnDrop        bool   `json:"restart_on_drop,omitempty"`         // the scripted loss of the first connection takes every other open connection of the node with it (the node restarts)
+	ProtoVer             uint32 `json:"proto_ver,omitempty"`               // protocol version the node reports (0 = 70013); below 70012 there is no sendheaders: new blocks are announced by inv
+	IgnoreStop           bool   `json:"ignore_stop,omitempty"`             // answers do not end at the stop hash (all that remain, or the cap)
+	SilentFirst          bool   `json:"silent_first,omitempty"`            // the first connection never answers getheaders, later ones do
+	OffendOnce           bool   `json:"offend_once,omitempty"`             // forbidden: after it has delivered the forbidden header once the node follows the honest chain
+	OthersGoWithOffender bool   `json:"others_go_with_offender,omitempty"` // forbidden: when the connection that delivered the forbidden header ends, the node closes its other connections too (the service then dials the host again at once)
+	InvBatch             int    `json:"inv_batch,omitempty"`               // inv announcements of this node list its last n blocks, oldest first (the service may know the earlier ones)
+	VersionLag           int    `json:"version_lag,omitempty"`             // the node's version message reports a height this many blocks below its chain: it found blocks while it was being synced from
+	DropAfterHeight      int    `json:"drop_after_height,omitempty"`       // the node closes the connection right after the getheaders answer that contains this height
+	Silent               bool   `json:"silent,omitempty"`                  // never answers getheaders (stall)
+	Inbound              bool   `json:"inbound,omitempty"`                 // node dials the service instead of being dialled
+	ForbiddenAt          int    `json:"forbidden_at,omitempty"`            // forbidden: height at which its chain carries the forbidden header
+	BadAt                int    `json:"bad_at,omitempty"`                  // badcheckpoint: checkpoint height at which its chain differs
+	MaxAccepts           int    `json:"max_accepts,omitempty"`
+	MaxLive              int    `json:"max_live,omitempty"`         // at most n simultaneous connections (1 = "a single connection")
+	NoDescendants        bool   `json:"no_descendants,omitempty"`   // forbidden: the forbidden header is the last of the node's chain
+	ChildFirst           bool   `json:"child_first,omitempty"`      // forbidden (with orphan_forbidden): the node first pushes the forbidden header's child alone, then [forbidden, child]
+	ForkBelow            int    `json:"fork_below,omitempty"`       // badcheckpoint: the contradicting branch forks this many blocks BELOW the checkpoint and is pushed unsolicited, one header per message
+	OrphanForbidden      bool   `json:"orphan_forbidden,omitempty"` // forbidden: the node follows the honest chain and pushes, unsolicited, a forbidden header whose parent the service does not have
 }
 
 // AnnounceSpec is one announcement round after the initial sync.
@@ -516,6 +517,7 @@ func Execute(s *Scenario, dir string) (res *Result) {
 			if ns.Kind == "forbidden" && !ns.OrphanForbidden && x.w.Forbidden != nil {
 				n.MarkHash = x.w.Forbidden.HashOf()
 			}
+			n.OthersGoWithOffender = ns.OthersGoWithOffender
 			if ns.Kind == "forbidden" && ns.OffendOnce && !ns.OrphanForbidden {
 				n.RepentAfterHeight = ns.ForbiddenAt
 				n.RepentChain = append([]refmodel.Hdr(nil), x.w.Honest...)
@@ -1018,6 +1020,9 @@ func Execute(s *Scenario, dir string) (res *Result) {
 			}
 		}
 	}
+	if s.Engine == "legacy" && s.BanDurationMs >= 60000 && res.Verdict == "held" {
+		x.awaitRedialOfRepentantOffender()
+	}
 	x.scenarioSpecificChecks("end")
 	if s.ReOffend && s.Engine == "legacy" && res.Verdict == "held" {
 		x.reOffend()
@@ -1117,6 +1122,58 @@ func (x *runner) mutexHang() (site, goroutine string) {
 		}
 	}
 	return "", ""
+}
+
+// awaitRedialOfRepentantOffender: a host that delivered the forbidden header once and follows the honest chain from then
+// on (offend_once) is banned for an hour. The service's connection manager dials it again sooner or later (its address is
+// still in the address book) once nothing of that host is connected any more - at once when the host's other connections
+// end together with the offender's (others_go_with_offender), which is the case awaited here. That later connection is what the "banned-host-connected" oracle judges, so
+// the scenario waits (bounded) until one has been accepted, and says so in the counters when none came.
+func (x *runner) awaitRedialOfRepentantOffender() {
+	for i, ns := range x.s.Nodes {
+		if ns.Kind != "forbidden" || !ns.OffendOnce || ns.OrphanForbidden || !ns.OthersGoWithOffender {
+			continue
+		}
+		n := x.nodes[i]
+		offender, closedAt := 0, int64(-1)
+		for _, c := range n.Conns() {
+			for _, e := range x.nodeEvents(n.Name, c.ID) {
+				if offender == 0 && e.Dir == "out" && e.Cmd == "headers" && strings.Contains(e.Info, "[marked]") {
+					offender = c.ID
+				}
+				if c.ID == offender && e.Dir == "close" && closedAt < 0 {
+					closedAt = int64(e.Seq)
+				}
+			}
+		}
+		if offender == 0 || closedAt < 0 {
+			continue
+		}
+		redialled := func() bool {
+			for _, c := range n.Conns() {
+				if c.ID <= offender {
+					continue
+				}
+				for _, e := range x.nodeEvents(n.Name, c.ID) {
+					if e.Dir == "conn" {
+						if int64(e.Seq) >= closedAt && (c.Ready() || c.Dead()) {
+							return true
+						}
+						break
+					}
+				}
+			}
+			return false
+		}
+		if x.waitFor(redialled, 20*time.Second) {
+			x.count("repentant_offender_redialled", 1)
+			if !x.quiesce("after the re-dial of a banned host") {
+				return
+			}
+		} else {
+			x.count("repentant_offender_not_redialled_within_20s", 1)
+		}
+	}
 }
 
 func (x *runner) quiesce(stage string) bool {
